@@ -58,7 +58,12 @@ class IoAccess(Job):
         pre += [z3.Implies(z3.And(d["kind"] == 3, d["oldk"] == 1), d["H"] >= acc),
                 z3.Implies(z3.And(d["kind"] == 2, d["oldk"] == 1), d["T"] >= acc),
                 # removing an entry that does not exist is not a transition the track / heap report
-                z3.Implies(z3.And(d["kind"] >= 2, d["oldk"] == 0), d["newk"] == 1)]
+                z3.Implies(z3.And(d["kind"] >= 2, d["oldk"] == 0), d["newk"] == 1),
+                # a running total is 0 or at least one canonical key long (every accounted entry includes its 32+ byte
+                # key): totals in between are unreachable -- and cannot be rebuilt by the native scenario
+                z3.Or(d["H"] == 0, d["H"] >= 32), z3.Or(d["T"] == 0, d["T"] >= 32),
+                # ... and within the configured maxima (the step that exceeded one failed the transaction)
+                d["H"] <= d["max_heap"], d["T"] <= d["max_track"]]
         return d, pre
 
     def setup_path(self, path, inp):
@@ -87,6 +92,12 @@ class IoAccess(Job):
         if t[0] == "panic":
             return {"panic": True, "msg": " ".join(t[1:])}
         r = {"panic": False, "ok": t[0] == "ok"}
+        if t[0] == "ok" and len(t) >= 3:
+            # totals after an accepted step, read back through two probing updates (-1 = probe inconclusive)
+            if int(t[1]) >= 0:
+                r["H1"] = int(t[1])
+            if int(t[2]) >= 0:
+                r["T1"] = int(t[2])
         if t[0] == "err" and t[1] == "heap":
             r["H1"] = int(t[2])
         if t[0] == "err" and t[1] == "track":
